@@ -91,11 +91,54 @@ func flowClosure(src ssa.Value) map[ssa.Value]bool {
 							}
 						}
 					}
+					for _, u := range elementLoads(x.Addr) {
+						if !t[u] {
+							t[u] = true
+							work = append(work, u)
+						}
+					}
 				}
 			}
 		}
 	}
 	return t
+}
+
+// elementLoads: v was stored into an element of a local array; return the loads of
+// any element of that array (directly or through a slice of it).
+func elementLoads(addr ssa.Value) []ssa.Value {
+	ia, ok := addr.(*ssa.IndexAddr)
+	if !ok {
+		return nil
+	}
+	arr, ok := ia.X.(*ssa.Alloc)
+	if !ok {
+		return nil
+	}
+	var out []ssa.Value
+	var visit func(v ssa.Value)
+	visit = func(v ssa.Value) {
+		refs := v.Referrers()
+		if refs == nil {
+			return
+		}
+		for _, r := range *refs {
+			switch x := r.(type) {
+			case *ssa.Slice:
+				visit(x)
+			case *ssa.IndexAddr:
+				if x.Referrers() != nil {
+					for _, rr := range *x.Referrers() {
+						if u, ok := rr.(*ssa.UnOp); ok && u.Op == token.MUL {
+							out = append(out, u)
+						}
+					}
+				}
+			}
+		}
+	}
+	visit(arr)
+	return out
 }
 
 // escape describes one way a value leaves the function through a return.
@@ -165,6 +208,9 @@ func unsanitisedReturns(fn *ssa.Function, at ssa.Instruction, src ssa.Value, cut
 								push(u)
 							}
 						}
+					}
+					for _, u := range elementLoads(x.Addr) {
+						push(u)
 					}
 				}
 			case *ssa.Return:
